@@ -328,7 +328,7 @@ class G:
         if x == 8:   # a set as a row (iteration order is Python's)
             return {"kind": "b", "cls": cls, "start": ["into", "t"],
                     "calls": [["insert", [["seq", "set", [["i", 3], ["i", 1], ["s", "b"], ["s", "a"]]]]]], "spec": None, "db": 0}
-        if x == 9:   # an aliased value inside VALUES (C13's defect, outside the DML grammar)
+        if x == 9:   # an aliased expression as inserted value (its alias is no longer rendered inside VALUES since f84cf61)
             return {"kind": "b", "cls": cls, "start": ["into", "t"],
                     "calls": [["insert", [["v", ["t", ["func", "NOW", [], "n"]]], ["v", v()]]]], "spec": None, "db": 0}
         if x == 10:  # set() on an INSERT builder, where() on VALUES: ignored by the renderer
